@@ -56,7 +56,7 @@ echo "== translator correspondence: translator/testdata/tsem run natively vs. ge
 T=/tmp/ttie-selftest-sem-$$; rm -rf "$T"; mkdir -p "$T"; scratch+=("$T")
 bin/ttie --build >/dev/null || { echo "FAIL translator does not build"; exit 2; }
 if (cd translator/testdata/tsem && go run . > "$T/examples.txt") \
-   && build/go2coq -repo translator/testdata/tsem -targets translator/testdata/tsem/targets.json -out "$T" >/dev/null; then
+   && build/go2coq -repo translator/testdata/tsem -targets translator/testdata/tsem/targets.json -out "$T" -only sem >/dev/null; then
   { cat <<'EOV'
 From Coq Require Import ZArith NArith QArith List Bool.
 From MM Require Import Base.Num Base.GoSem.
@@ -77,6 +77,35 @@ EOV
   done
   if [ $okc = 1 ]; then echo "ok   translator correspondence: $(wc -l < "$T/examples.txt") native evaluations reproduced by the generated definitions"; else fail=1; fi
 else echo "FAIL translator correspondence: native run or translation failed"; fail=1; fi
+
+echo "== fail loudly: every function of testdata/tsem/sem/bad.go must be refused with the expected message"
+TB=/tmp/ttie-selftest-bad-$$; rm -rf "$TB"; mkdir -p "$TB"; scratch+=("$TB")
+build/go2coq -repo translator/testdata/tsem -targets translator/testdata/tsem/targets.json -out "$TB" -only bad >/dev/null 2>&1; rcb=$?
+if [ $rcb != 1 ]; then echo "FAIL fail-loudly: go2coq exit $rcb, expected 1"; fail=1; else
+  if python3 - "$TB/report.json" translator/testdata/tsem/bad_expect.txt <<'EOP'
+import sys, json
+rep = json.load(open(sys.argv[1]))
+byf = {f["func"]: f for f in rep["funcs"]}
+bad = 0
+n = 0
+for ln in open(sys.argv[2]):
+    if not ln.strip():
+        continue
+    fn, sub = ln.rstrip("\n").split("\t")
+    n += 1
+    f = byf.get(fn)
+    if f is None or f["status"] != "error" or sub not in f.get("error", "") or f.get("coq_name"):
+        print("  unexpected:", fn, f)
+        bad += 1
+gen = open(sys.argv[1].replace("report.json", "Gen_sem_bad.v")).read()
+if "Definition" in gen:
+    print("  a definition was emitted for a refused function")
+    bad += 1
+print("  %d refused functions checked" % n)
+sys.exit(1 if bad else 0)
+EOP
+  then echo "ok   fail loudly"; else echo "FAIL fail loudly"; fail=1; fi
+fi
 
 echo "== pristine $SRC: every tie checks"
 if VERIF_REPO="$SRC" bin/ttie --all; then echo "ok   pristine"; else echo "FAIL pristine"; fail=1; fi
